@@ -572,9 +572,19 @@ def verify_function(c, registry=REGISTRY, timeout_ms=None):
     res.source_lines = (fn.lineno, getattr(fn, 'end_lineno', fn.lineno))
     axioms = literal_axioms() + list(ctx.axioms)
     t1 = time.time()
+    retries_left = 6
     for ob in ctx.obligations:
         verdict, backend, dt, model, reason = solve_one(ob, axioms, timeout_ms,
                                                         first_opts=c.ghost.get('solver_first'))
+        if verdict == 'unknown' and retries_left > 0:
+            # undecided within the budget: one more attempt with four times the budget before the
+            # obligation is reported (keeps verdicts stable when all cores are busy)
+            retries_left -= 1
+            v2, b2, dt2, model2, reason2 = solve_one(ob, axioms, (timeout_ms or Z3_TIMEOUT_MS) * 4,
+                                                     first_opts=c.ghost.get('solver_first'))
+            dt += dt2
+            if v2 != 'unknown':
+                verdict, backend, model, reason = v2, b2 + '(retry)', model2, reason2
         res.obligations.append(dict(id=ob.id, kind=ob.kind, text=ob.text, line=ob.lineno, src=ob.src,
                                     verdict=verdict, backend=backend, time_s=round(dt, 4),
                                     model=model_summary(model, ctx), reason=reason))
